@@ -20,6 +20,12 @@ pub enum Fault {
     Zero(usize, usize),
     /// whole row = 0
     ZeroRow(usize),
+    /// every cell of a column += 1
+    IncCol(usize),
+    /// whole column = 0
+    ZeroCol(usize),
+    /// one column taken from the trace regenerated from another start
+    SeedCol(usize),
     /// the whole trace regenerated from another start (all transitions valid, assertions break)
     OtherSeed,
     /// auxiliary cell (col, row) += 1, injected by the prover's aux-trace builder
@@ -41,6 +47,11 @@ fn faults(s: &Shape) -> Vec<Fault> {
     }
     for r in 0..s.n {
         f.push(Fault::ZeroRow(r));
+    }
+    for c in 0..s.width() {
+        f.push(Fault::IncCol(c));
+        f.push(Fault::ZeroCol(c));
+        f.push(Fault::SeedCol(c));
     }
     if let Some((aw, _)) = s.aux {
         for c in 0..aw {
@@ -96,6 +107,13 @@ fn run_g<B: BaseF, H: HF<B>>(shape: &Arc<Shape>, cfg: &Cfg, only: Option<&Fault>
             Fault::Inc(c, r) => main[c][r] += B::ONE,
             Fault::Zero(c, r) => main[c][r] = B::ZERO,
             Fault::ZeroRow(r) => (0..shape.width()).for_each(|c| main[c][r] = B::ZERO),
+            Fault::IncCol(c) => (0..shape.n).for_each(|r| main[c][r] += B::ONE),
+            Fault::ZeroCol(c) => (0..shape.n).for_each(|r| main[c][r] = B::ZERO),
+            Fault::SeedCol(c) => {
+                let mut s2 = (**shape).clone();
+                s2.seed += 1;
+                main[c] = gen_main::<B>(&s2)[c].clone();
+            },
             Fault::OtherSeed => {
                 let mut s2 = (**shape).clone();
                 s2.seed += 1;
@@ -208,6 +226,9 @@ fn parse_fault(t: &str) -> Fault {
         "Inc" => Fault::Inc(g(0), g(1)),
         "Zero" => Fault::Zero(g(0), g(1)),
         "ZeroRow" => Fault::ZeroRow(g(0)),
+        "IncCol" => Fault::IncCol(g(0)),
+        "ZeroCol" => Fault::ZeroCol(g(0)),
+        "SeedCol" => Fault::SeedCol(g(0)),
         "Aux" => Fault::Aux(g(0), g(1)),
         "AuxStart" => Fault::AuxStart(g(0)),
         "Claim" => Fault::Claim(g(0), g(1)),
@@ -257,7 +278,7 @@ pub fn run(args: &Args) {
         report.violations(o.viol);
     }
     report.part(
-        "every cell +1 / =0, every row zeroed, other seed, every aux cell +1, every claimed value +1",
+        "every cell +1 / =0, every row zeroed, every column +1 / zeroed / from another start, other seed, every aux cell +1, every aux column from another start, every claimed value +1",
         evals,
         kept,
         json!({"instances": jobs.len(), "shapes": cat.len(), "faults_classified_unsatisfying_and_kept": kept, "faults_still_satisfying_and_skipped": sat,
